@@ -36,14 +36,15 @@ type c15Scenario struct {
 }
 
 type c15World struct {
-	q        *SimpleQueue[*item]
-	order    []int
-	got      []int
-	popGot   []int
-	cDone    bool
-	cFalse   bool
-	total    int
-	cancelled bool
+	q           *SimpleQueue[*item]
+	order       []int
+	got         []int
+	popGot      []int
+	cDone       bool
+	cFalse      bool
+	total       int
+	cancelled   bool
+	afterCancel []int // items handed out by a wait that started on an already cancelled context
 }
 
 func c15Setup(sc c15Scenario) func(s *vsync.Sched) vsync.World {
@@ -64,7 +65,11 @@ func c15Setup(sc c15Scenario) func(s *vsync.Sched) vsync.World {
 		}
 		c := vsync.GoNamed("C", func() {
 			for len(w.got) < w.total {
+				pre := ctx.Err() != nil // cancelled before this wait starts (no scheduling point between this read and the call)
 				it, ok := w.q.WaitForItem(ctx)
+				if pre && ok {
+					w.afterCancel = append(w.afterCancel, it.id)
+				}
 				if !ok {
 					w.cFalse = true
 					break
@@ -142,6 +147,9 @@ func c15Check(sc c15Scenario) func(x *vsync.Execution, wd vsync.World) (string, 
 		}
 		if x.Deadlock {
 			return outcome, &vsync.Verdict{Sig: "C15/deadlock", Desc: strings.Join(x.Blocked, "; ")}
+		}
+		if len(w.afterCancel) > 0 {
+			return outcome, &vsync.Verdict{Sig: "C15/item-after-cancel", Desc: fmt.Sprintf("a wait that started after the context had been cancelled returned item(s) %v instead of 'no item'", w.afterCancel)}
 		}
 		if w.cFalse && !w.cancelled {
 			return outcome, &vsync.Verdict{Sig: "C15/spurious-false", Desc: "WaitForItem returned false without cancellation"}
